@@ -55,11 +55,18 @@ type guardStore struct {
 	isWAL     bool
 	overrides map[uint64]*raft.Log
 	failNext  bool
+	failLast  bool // one-shot: the next LastIndex fails
 	called    bool // last StoreLogs reached this store
 }
 
 func (g *guardStore) FirstIndex() (uint64, error) { return g.inner.FirstIndex() }
-func (g *guardStore) LastIndex() (uint64, error)  { return g.inner.LastIndex() }
+func (g *guardStore) LastIndex() (uint64, error) {
+	if g.failLast {
+		g.failLast = false
+		return 0, errVfyInjected
+	}
+	return g.inner.LastIndex()
+}
 func (g *guardStore) GetLog(idx uint64, log *raft.Log) error {
 	if o, ok := g.overrides[idx]; ok {
 		*log = *o
@@ -605,11 +612,16 @@ func (v *vRun) op(f []string) string {
 			return "ok"
 		}
 		return strings.Join(out, ",")
-	case "d":
+	case "d", "l":
 		mn, mx := parseU(f[2]), parseU(f[3])
 		firstBefore, _ := n.guard.FirstIndex()
 		lastBefore, _ := n.guard.LastIndex()
+		if f[0] == "l" {
+			n.guard.failLast = true // the middleware's next LastIndex read of the store fails
+			v.c.stat("delete_with_failing_lastindex")
+		}
 		err := n.ls.DeleteRange(mn, mx)
+		n.guard.failLast = false
 		terr := n.twin.DeleteRange(mn, mx)
 		if (err == nil) != (terr == nil) {
 			v.c.witness("C18", "passthrough-deleterange-result", fmt.Sprintf("DeleteRange through the middleware: %v, directly: %v", err, terr), v.line)
